@@ -24,6 +24,14 @@ CHECKS = {
             "execution monitor against a README reference interpreter: complete post-state comparison incl. frame condition, exhaustive 8-bit operation tables",
             "Held (modulo listed known findings) on complete 2^17 operand tables per 8-bit operation (thorough), all unary tables, valid-BCD tables, every encoding with planted boundary operands, counted forms for I up to 255: result, C, Z, pointer/counter/stack effects equal the README and nothing else changes.",
             "Trusts vt/refisa.py; README-undetermined outputs are don't-care and listed in the evidence.", "DESIGN.md 3/C04"),
+    "C05": ("exploration",
+            "execution monitor: InstructionInfo.branches from the real get_instruction_info compared with the PC observed on the real Emulator under all flag values; inverse-pair programs",
+            "Held on all branch/call/return opcodes x prefixes x a page-boundary address grid x operand boundaries x 4 flag values, on the fall-through clause over every accepted head, and on generated CALL/RET, CALLF/RETF, IR/RETI programs with random stack-neutral bodies.",
+            "binja_test_mocks stands in for Binary Ninja; IR vector planted in flat memory.", "DESIGN.md 3/C05"),
+    "C06": ("exploration",
+            "differential execution monitor: real Python Emulator vs real Rust LlamaExecutor (client harness binary) on identical flat memories, single instructions and lockstep programs; Rust overflow/debug-assert panics caught per case",
+            "Held (modulo mechanism-keyed known findings) on every Python-accepted structural head x {distinguishing, boundary, random} states and on seeded programs compared after every step. Known findings are matched by mechanism predicate + field-subset, so any other disagreement is a fresh violation.",
+            "Python and Rust run in separate processes connected by JSONL vectors; flat device-free buses; F bits 2-7 and TEMPs not compared.", "DESIGN.md 3/C06"),
 }
 
 NOT_APPLICABLE = []  # filled automatically for properties without a check (reason below)
